@@ -4,6 +4,7 @@ CONSTANT InitOut <- InitForeign
 CONSTANT MaxCrashes = 1
 CONSTANT MaxSessions = 3
 CONSTANT NormalExit = TRUE
+CONSTANT MaxWorkerKills = 0
 CONSTANT HeaderOnEmpty = TRUE
 CONSTANT OwnBuffer = TRUE
 CONSTANT HeaderNoClaim = TRUE
